@@ -12,5 +12,5 @@ CONSTANTS
   PCaps = {0, 1, 2}
   Junk = 34
   EmitOn = TRUE
-INVARIANTS ResumeEqFresh Stable OffsSane Emit
+INVARIANTS ResumeEqFresh Idempotent Stable OffsSane Emit
 CHECK_DEADLOCK FALSE
